@@ -42,7 +42,7 @@ Definition reads_clear (strict : bool) (F : list fact) (asz : Z -> Z) (i : inst)
 Definition covered (F : list fact) (asz : Z -> Z) (i : inst) (x : pitem) : bool :=
   let sh := wshape (i_op i) in
   sh_must sh && negb (is_in (i_op i) HALT_OPS) &&
-  existsb (fun w => sp_eqb (sr_sp w) (fst x) &&
+  existsb (fun w => sp_eqb (sr_sp w) (fst x) && ml_fixed (sym_loc F asz (i_args i) w) &&
                     match completely_contains (sym_loc F asz (i_args i) w) (snd x) with Ok true => true | _ => false end) (sh_w sh).
 
 Definition deletable (op : string) : bool :=
@@ -84,7 +84,7 @@ Definition dcheck_block (strict : bool) (f f' : func) (C : cert) (Q : qcert) (as
   && dscan strict f C Q asz (cert_at C b) (q_at Q b) (body (nth_block f b)) (body (nth_block f' b)).
 
 Definition dse_check_with (strict : bool) (f f' : func) (C : cert) (Q : qcert) : bool :=
-  Nat.eqb (List.length f) (List.length f') && null (cert_at C 0%N) && null (q_at Q 0%N)
+  Nat.eqb (List.length f) (List.length f') && negb (null f) && null (cert_at C 0%N) && null (q_at Q 0%N)
   && forallb (fun g => pure_fact g) (List.concat C)
   && (let asz := asz_of f in forallb (fun b => dcheck_block strict f f' C Q asz (N.of_nat b)) (seq 0 (List.length f))).
 
